@@ -11,17 +11,19 @@ for r in res:
         if m:
             s = json.loads(m.group(1))
             sigs.append(f"{s[1]} {s[2]}{('/' + s[3]) if s[3] else ''} {s[4]} ({m.group(2)}x)")
-    rows.append(f"| {r['id']} | {r['source']} | {r['property']} | {('silent (benign change)' if r['exit'] == 0 else 'FALSE ALARM') if r.get('expected') == 'pass' else ('caught' if r['caught'] else 'MISSED')} | {'; '.join(sigs[:2])} |")
-harm = [r for r in res if r.get("expected") != "pass"]
+    rows.append(f"| {r['id']} | {r['source']} | {r['property']} | {('silent (benign change)' if r['exit'] == 0 else 'FALSE ALARM') if r.get('expected') == 'pass' else ('caught' if r['caught'] else ('not caught (outside the property as stated, see 8.9)' if r.get('expected') not in (None, 'caught') else 'MISSED'))} | {'; '.join(sigs[:2])} |")
+harm = [r for r in res if r.get("expected", "caught") == "caught"]
+outside = [r for r in res if r.get("expected") not in (None, "caught", "pass")]
 ben = [r for r in res if r.get("expected") == "pass"]
 caught = sum(r["caught"] for r in harm)
 text = (f"### 8.8 Last complete sensitivity run\n\n{caught}/{len(harm)} harmful changes caught and {sum(r['exit'] == 0 for r in ben)}/{len(ben)} behaviour-preserving changes left silent by the quick tier of their property "
-        f"(each VIOLATION was minimised and its replay reproduced in a fresh process).\n\n" + "\n".join(rows) + "\n\n")
+        f"(each VIOLATION was minimised and its replay reproduced in a fresh process)"
+        + (f"; {len(outside)} further change(s) need something outside the quantified histories and are listed as not caught" if outside else "") + ".\n\n" + "\n".join(rows) + "\n\n")
 p = os.path.join(HERE, "DESIGN.md")
 s = open(p).read()
 if "### 8.8 Last complete sensitivity run" in s:
     a = s.index("### 8.8 Last complete sensitivity run")
-    b = s.index("## Appendix A")
+    b = s.index("### 8.9") if "### 8.9" in s else s.index("## Appendix A")
     s = s[:a] + text + s[b:]
 else:
     s = s.replace("## Appendix A", text + "## Appendix A", 1)
